@@ -18,6 +18,8 @@ let () =
     Printf.printf "case %s\n" id;
     let be = b01 (cfg_get cfg "be" "0") in
     let dbg = b01 (cfg_get cfg "dbg" "1") in
+    (* oracle replay cases (kind=emit|iface) carry nothing for the model *)
+    let ops = if cfg_get cfg "kind" "" <> "" then [] else ops in
     List.iter (fun op ->
       let r = match words op with
         | ["pc"; w] -> "ok " ^ sz (cksum_propagate_carries (zs w))
